@@ -1,5 +1,5 @@
 import collections
-from math import modf
+from fractions import Fraction
 from typing import Deque, Generic, List, TypeVar
 
 """Misc helper functions"""
@@ -7,17 +7,16 @@ from typing import Deque, Generic, List, TypeVar
 
 def number_to_string_with_stepsize(value: float, decimals: int, stepsize: float):
 
-    negative = value < 0
+    # Calculate with exact fractions. Binary floats can not represent stepsizes
+    # like 0.2 which resulted in values next to the grid (e.g. 8.6 became "8.59")
+    step = Fraction(str(stepsize))
+    steps = round(Fraction(value) / step)
+    scaled_value = int(abs(steps * step * 10**decimals))
 
-    steps = round(value / stepsize)
-    stepped_value = steps * stepsize
-    after_the_point, before_the_point = modf(stepped_value)
+    before_the_point, after_the_point = divmod(scaled_value, 10**decimals)
 
-    before_the_point = abs(before_the_point)
-    after_the_point = int(abs(after_the_point * (10 ** decimals)))
-
-    output = "-" if negative and (before_the_point > 0 or after_the_point > 0) else ""
-    output += str(int(before_the_point))
+    output = "-" if steps < 0 and scaled_value > 0 else ""
+    output += str(before_the_point)
     if decimals > 0:
         output += f".{str(after_the_point).rjust(decimals, '0')}"
 
